@@ -211,6 +211,8 @@ def r12_opaque(body, begin, end, replace, log, name='', include_end=True, nth=No
 
 
 def subst(body, frm, to, log, rule='subst', count=1, regex=False, optional=False):
+    if not regex:
+        to = to.replace('\\n', '\n')   # a literal backslash-n in a unit file directive is a line break
     if optional and ((regex and not re.search(frm, body)) or (not regex and frm not in body)):
         log.append(f"{rule} `{frm}` not present (optional rewrite skipped)")
         return body
